@@ -85,6 +85,12 @@ def Disj (s : St) : Prop := ∀ a, some a ∈ s.pending → a ∉ s.regAddrs
 /-- number of tracked slots: bounds the nesting of destructor-issued deletions -/
 def mu (s : St) : Nat := s.reg.length + (s.pending.filter Option.isSome).length
 
+/-- no destructor known to the collector state allocates -/
+def NoDAlloc (s : St) : Prop := s.dalloc = []
+
+theorem St.dallocOf_nil {s : St} (h : NoDAlloc s) (a : Addr) : s.dallocOf a = [] := by
+  unfold St.dallocOf; rw [h]; rfl
+
 /-- the pending list after every address in `D` has been struck off -/
 def strikeAll (D : List Addr) (p : List (Option Addr)) : List (Option Addr) :=
   p.map (fun o => match o with
@@ -232,14 +238,16 @@ structure Eff (s s' : St) (D : List Addr) (evs : List Ev) : Prop where
   running : s'.running = s.running
   owns : s'.owns = s.owns
   log : s'.log = s.log ++ evs
+  dalloc : s'.dalloc = s.dalloc
 
 theorem Eff.refl (s : St) : Eff s s [] [] :=
-  ⟨(regWithout_nil _).symm, (strikeAll_nil _).symm, rfl, rfl, by simp⟩
+  ⟨(regWithout_nil _).symm, (strikeAll_nil _).symm, rfl, rfl, by simp, rfl⟩
 
 theorem Eff.trans {s s' s'' : St} {D1 D2 : List Addr} {e1 e2 : List Ev}
     (h1 : Eff s s' D1 e1) (h2 : Eff s' s'' D2 e2) : Eff s s'' (D1 ++ D2) (e1 ++ e2) :=
   ⟨by rw [h2.reg, h1.reg, regWithout_regWithout], by rw [h2.pending, h1.pending, strikeAll_strikeAll],
-   by rw [h2.running, h1.running], by rw [h2.owns, h1.owns], by rw [h2.log, h1.log, List.append_assoc]⟩
+   by rw [h2.running, h1.running], by rw [h2.owns, h1.owns], by rw [h2.log, h1.log, List.append_assoc],
+   by rw [h2.dalloc, h1.dalloc]⟩
 
 theorem Eff.tracked {s s' : St} {D : List Addr} {e : List Ev} (h : Eff s s' D e) (a : Addr) :
     Tracked s' a ↔ Tracked s a ∧ a ∉ D := by
